@@ -1,7 +1,7 @@
 (* Properties/C09.v -- template lookup never escapes its configured directories.
    All statements quantify over every URI string (any length, any mixture of "..", ".",
    empty segments, slashes and backslashes), every directory and every file-system oracle. *)
-From MakoV Require Import Lib.Str Model.Paths Proofs.PathsProofs.
+From MakoV Require Import Lib.Str Model.Paths Proofs.PathsProofs Proofs.PathsModule.
 Open Scope N_scope.
 
 (* If the constructor's check passes, the path the lookup probes and hands to Template
@@ -48,10 +48,12 @@ Theorem C09_adjust_then_lookup_contained : forall isfile dirs uri relativeto f,
 Proof. exact adjust_then_lookup_contained. Qed.
 Print Assumptions C09_adjust_then_lookup_contained.
 
-(* not yet proved (visible at full strength, asserted nowhere): generated module files lie
-   beneath module_directory.  Decided by correspondence + the extracted [within] predicate. *)
-Definition C09_module_path_contained_statement : Prop := forall md uri,
+(* generated module files lie beneath module_directory: for every module directory and every URI the constructor accepts,
+   the path the module file is written to has the components of the (normalised) module directory followed by plain names *)
+Theorem C09_module_path_contained : forall md uri,
   template_check uri = true -> within (normpath md) (module_path md uri) = true.
+Proof. exact module_path_contained. Qed.
+Print Assumptions C09_module_path_contained.
 
 (* non-vacuity *)
 Example C09_nonvacuous_pass : template_check (s2l "/sub/../a//b\c/./x.html") = true
